@@ -10,6 +10,7 @@
 (* LocMemCache, which validates this reading of the contract.              *)
 (***************************************************************************)
 EXTENDS DjangoOps, Json, IOUtils, TLCExt
+tr_NoDjDev == {}
 tr_QIntStart == <<0, 50000000, 0>>
 tr_QIntMax   == <<0, 99999999, 9999999>>
 tr_QDigits   == <<53, 48, 48, 48, 48, 48, 48, 48, 48, 48, 48, 48, 48, 48, 48>>
